@@ -61,6 +61,7 @@ class M68K:
             ad = ea(s)
             if ad % 2:
                 raise Violation('misaligned-access', '%s at 0x%x' % (src, ad))
+            below_sp(ad, src)
             return mem.load(ad, 4, src)
 
         def write(s, v, src):
@@ -71,7 +72,13 @@ class M68K:
             ad = ea(s)
             if ad % 2:
                 raise Violation('misaligned-access', '%s at 0x%x' % (src, ad))
+            below_sp(ad, src)
             mem.store(ad, 4, v, src)
+
+        def below_sp(ad, src):
+            # the own frame is [sp, entry sp): memory below the current stack pointer is not the function's (interrupts may use it)
+            if STACK_TOP - STACK_SIZE <= ad < a[7]:
+                raise Violation('access-below-stack-pointer', '%s touches 0x%x while sp = 0x%x' % (src, ad, a[7]))
 
         def push(v, src):
             a[7] = (a[7] - 4) & M
